@@ -17,6 +17,7 @@ type Case struct {
 	S    string  `json:"s"`
 	D    string  `json:"d"`
 	Amps []int64 `json:"amps"`
+	Pad  int     `json:"pad,omitempty"` // the amplitudes are repeated cyclically up to this buffer length
 }
 
 var Pairs = convtab.Select("SignedAsSigned", "SignedAsUnsigned", "UnsignedAsSigned", "UnsignedAsUnsigned")
@@ -102,7 +103,13 @@ func Check(c *Case) (res kit.Result) {
 		}
 	}
 	var msg string
-	if p, v := kit.Try(func() { msg = NewRunner(e).Run(c.Amps) }); p {
+	if c.Pad < 0 || c.Pad > 1<<20 {
+		return
+	}
+	if c.Pad > len(c.Amps) {
+		res.Class("paddedToLongBuffer")
+	}
+	if p, v := kit.Try(func() { msg = NewRunner(e).Run(kit.PadInts(c.Amps, c.Pad)) }); p {
 		res.Failf("%s panicked: %v", e, v)
 		return
 	}
@@ -129,6 +136,7 @@ func FP(c *Case) uint64 {
 	h.Str(c.S)
 	h.Str(c.D)
 	h.Int(len(c.Amps))
+	h.Int(c.Pad)
 	for _, a := range c.Amps {
 		h.U64(uint64(a))
 	}
@@ -143,6 +151,7 @@ func Gen(t *rapid.T) *Case {
 		e = Pairs[rapid.IntRange(0, len(Pairs)-1).Draw(t, "pair2")]
 	}
 	c := &Case{S: e.S.Name, D: e.D.Name}
+	c.Pad = kit.GenPad(t)
 	n := rapid.IntRange(1, 24).Draw(t, "n")
 	for i := 0; i < n; i++ {
 		c.Amps = append(c.Amps, kit.GenAmp(t, e.S.Bits, BAmps[e.S.Bits]))
